@@ -86,8 +86,46 @@ def _sqrt(x):
     return s
 
 
-def _trig(arg):
+def _half_atoms(arg):
+    """arg = sum_i k_i * t_i / 2 with integer k_i over atomic symbols t_i (and no constant term)? -> [(t_i, k_i)] else None"""
     arg = sp.expand(arg)
+    d = arg.as_coefficients_dict()
+    out = []
+    for t, c in d.items():
+        if not t.is_Symbol:
+            return None
+        k = 2 * c
+        if not (k.is_Integer):
+            return None
+        out.append((t, int(k)))
+    return out
+
+
+def _base_pair(t):
+    """(cos(t/2), sin(t/2)) as a pair of symbols with c^2 + s^2 = 1"""
+    half = t / 2
+    for c, s, a in CTX[0].trig:
+        if a == half:
+            return c, s
+    c = sp.Symbol(f'ch_{t.name}', real=True); s = sp.Symbol(f'sh_{t.name}', real=True)
+    CTX[0].trig.append((c, s, half))
+    return c, s
+
+
+def _trig(arg):
+    """(cos(arg), sin(arg)). When arg is an integer combination of half-angles of atomic symbols the result is the exact
+    trigonometric polynomial in the base pairs (cos(t/2), sin(t/2)) (angle-addition theorems = expansion of prod (c+is)^k),
+    so that identities between full-angle and half-angle expressions become polynomial identities modulo c^2+s^2=1."""
+    arg = sp.expand(arg)
+    atoms = _half_atoms(arg)
+    if atoms is not None and atoms:
+        z = sp.Integer(1)
+        for t, k in atoms:
+            c, s = _base_pair(t)
+            z = z * (c + sp.I * s) ** k if k >= 0 else z * (c - sp.I * s) ** (-k)
+        z = sp.expand(z)
+        re, im = z.as_real_imag()
+        return sp.expand(re), sp.expand(im)
     for c, s, a in CTX[0].trig:
         if sp.expand(a - arg) == 0:
             return c, s
@@ -115,6 +153,13 @@ def _exp(x):
     if not x.free_symbols:
         return sp.exp(x)
     xe = sp.expand(x)
+    re, im = xe.as_real_imag()
+    if re == 0:                       # exp(i*theta) = cos(theta) + i sin(theta)
+        c, s_ = _trig(im)
+        return c + sp.I * s_
+    if im != 0:
+        c, s_ = _trig(im)
+        return _exp(re) * (c + sp.I * s_)
     for s, a in CTX[0].exp.items():
         if sp.expand(a - xe) == 0:
             return s
